@@ -253,6 +253,9 @@ func runC08(c *Ctx) {
 
 	ruleGoBounded(c)
 	ruleAuthReadFailureEnds(c)
+	// giving up after a failed DATA read relies on the reader's failure being repeated by the drain (which closes):
+	// an error exit of the reader leaves its state alone, so the next Read goes back to the dead connection
+	ruleDotStructure(c)
 	rulePanicUnderLock(c) // a callback panicking under a lock that is not released by defer makes the recovery's Close block: no Logout, socket kept
 	R.Rule("R-state-writers", "who-may-write", "the closed flag is written only by Conn.Close", 1)
 	c.obWriters("Conn.closed", "set once the connection has been given up", "(*Conn).Close")
